@@ -1,6 +1,7 @@
 import SFV.Model.Transfer
+import SFV.Model.TransferReg
 import SFV.Model.Proto
-open SFV SFV.Proto SFV.Transfer
+open SFV SFV.Proto SFV.Transfer SFV.Registry SFV.TransferReg
 
 def showPath (p : List String) : String := "/" ++ "/".intercalate p
 
@@ -19,6 +20,17 @@ def handle : List String → String
       match stringOfHex base, dst.mapM stringOfHex with
       | some b, some dst => hexOfString (showPath (finalDest dst (d == "1") b))
       | _, _ => "bad-op"
+  | "reg" :: w :: lsrc :: ldst :: "S" :: rest =>
+      -- reg <writable> <lsrc> <ldst> S <src comps…> F <final comps…>: the valid objects `get_data_locations(final, ldst)` returns
+      let srcC := rest.takeWhile (· ≠ "F")
+      let finC := (rest.dropWhile (· ≠ "F")).drop 1
+      match lsrc.toNat?, ldst.toNat?, srcC.mapM stringOfHex, finC.mapM stringOfHex with
+      | some ls, some ld, some src, some fin =>
+          let r := register St.init ls src
+          let s' := transferRegister r.1 r.2 ld fin (w == "1")
+          let paths := (getLocs s' fin ld).map (fun o => showPath (objPath s' o))
+          " ".intercalate ("objs" :: paths.map hexOfString)
+      | _, _, _, _ => "bad-op"
   | _ => "bad-op"
 
 def main : IO Unit := runPure handle
